@@ -660,6 +660,14 @@ def check_closed_table(ctx, su, spec, rq, m):
                              oo.get("exc", "issues"))
             continue
         check_order(ctx, oo["raw"], dict(case, warnings=w))
+        if "delay/" in json.dumps(spec).casefold():
+            # Delay-shifted groups create equal effective times; which row heads a merged time point (and therefore the
+            # label of its issues) is decided by pandas' unstable sort / is the registered finding C07-merged-row-label.
+            # The closed C07 check compares such tables modulo those classes (Closed.skipReason, timeParts); here the
+            # property clauses (error subset, order of the list as returned) have been checked on the implementation
+            # above, and the label-exact comparison with the model is left to C07.
+            ctx.count(f"closed-table:{name}-delay-table-model-comparison-left-to-C07")
+            continue
         # the model's list ends with `sortIssues`: same runs of equal (row, column) in the same order, same items per run
         if run_groups([i[:4] for i in mm["issues"]]) != run_groups(oo["issues"]):
             ctx.disagree(f"Flow.Tab.validateClosedW (warnings {name}) = validate: ORDER of the returned list", case,
